@@ -57,39 +57,51 @@ theorem chunksOf_length (f : Nat) (hf : 2 ≤ f) :
       omega
 
 /-- With fan-out ≥ 2 the loop finishes within `length` rounds and its single result is `R`-equivalent
-    to merging all accumulators at once (`R` = accumulator equivalence; `Eq` when merge is associative
-    on the nose). -/
-theorem fanIn_spec (m : List P → P) (R : P → P → Prop) (hrefl : ∀ a, R a a)
-    (htrans : ∀ {a b c}, R a b → R b c → R a c) (hm1 : ∀ a, m [a] = a)
-    (hassoc : ∀ gs : List (List P), (∀ g ∈ gs, g ≠ []) → R (m (gs.map m)) (m gs.flatten))
+    to merging all accumulators at once. `R` = accumulator equivalence (`Eq` when merge is associative on
+    the nose); `I` = an invariant of the accumulators that actually occur (e.g. "equivalent to the fold of
+    some values"), preserved by `m` — the laws are only required of such accumulators. -/
+theorem fanIn_spec (m : List P → P) (I : P → Prop) (R : P → P → Prop)
+    (htrans : ∀ {a b c}, R a b → R b c → R a c)
+    (hI : ∀ g : List P, (∀ a ∈ g, I a) → I (m g))
+    (hm1 : ∀ a, I a → R a (m [a]))
+    (hassoc : ∀ gs : List (List P), (∀ g ∈ gs, g ≠ [] ∧ ∀ a ∈ g, I a) → R (m (gs.map m)) (m gs.flatten))
     (f : Nat) (hf : 2 ≤ f) :
-    ∀ (fuel : Nat) (accs : List P), accs.length ≤ fuel + 1 → accs ≠ [] →
+    ∀ (fuel : Nat) (accs : List P), accs.length ≤ fuel + 1 → accs ≠ [] → (∀ a ∈ accs, I a) →
       ∃ x, fanIn m f fuel accs = some [x] ∧ R x (m accs) := by
   intro fuel
   induction fuel with
   | zero =>
-    intro accs hl hne
-    match accs, hl, hne with
-    | [a], _, _ => exact ⟨a, by simp [fanIn], by rw [hm1]; exact hrefl a⟩
+    intro accs hl hne hIa
+    match accs, hl, hne, hIa with
+    | [a], _, _, hIa => exact ⟨a, by simp [fanIn], hm1 a (hIa a (by simp))⟩
   | succ fuel ih =>
-    intro accs hl hne
+    intro accs hl hne hIa
     unfold fanIn
     by_cases h1 : accs.length ≤ 1
-    · match accs, h1, hne with
-      | [a], _, _ => exact ⟨a, by simp, by rw [hm1]; exact hrefl a⟩
+    · match accs, h1, hne, hIa with
+      | [a], _, _, hIa => exact ⟨a, by simp, hm1 a (hIa a (by simp))⟩
     · simp only [h1, ↓reduceIte]
       have hlen := chunksOf_length f hf accs.length accs
       have hfl := chunksOf_flatten f (by omega) accs.length accs (Nat.le_refl _)
       have hnonempty := chunksOf_nonempty f (by omega) accs.length accs
+      have hsub : ∀ g ∈ chunksOf f accs.length accs, ∀ a ∈ g, I a := by
+        intro g hg a ha
+        apply hIa
+        rw [← hfl]
+        exact List.mem_flatten.mpr ⟨g, hg, ha⟩
       have hne' : (chunksOf f accs.length accs).map m ≠ [] := by
         intro h0
         have : (chunksOf f accs.length accs) = [] := by simpa using h0
         rw [this] at hfl
         simp at hfl
         exact hne hfl
-      obtain ⟨x, hx, hR⟩ := ih _ (by simp; omega) hne'
+      have hI' : ∀ b ∈ (chunksOf f accs.length accs).map m, I b := by
+        intro b hb
+        obtain ⟨g, hg, rfl⟩ := List.mem_map.mp hb
+        exact hI g (hsub g hg)
+      obtain ⟨x, hx, hR⟩ := ih _ (by simp; omega) hne' hI'
       refine ⟨x, hx, htrans hR ?_⟩
-      have := hassoc _ hnonempty
+      have := hassoc _ (fun g hg => ⟨hnonempty g hg, hsub g hg⟩)
       rwa [hfl] at this
 
 /-- for fan-out 1 (and 0, which the engine clamps to 1) the loop never shrinks the list -/
@@ -123,35 +135,37 @@ theorem fanIn_one_stuck (m : List P → P) :
     exact h
 
 theorem reduceGlobalWith_spec (c : Nat) (m : List P → P) (fo : Option Nat)
-    (R : P → P → Prop) (hrefl : ∀ a, R a a) (htrans : ∀ {a b c}, R a b → R b c → R a c)
-    (hm1 : ∀ a, m [a] = a)
-    (hassoc : ∀ gs : List (List P), (∀ g ∈ gs, g ≠ []) → R (m (gs.map m)) (m gs.flatten))
-    (hf : ∀ f, fo = some f → 2 ≤ max f c) (accs : List P) :
+    (I : P → Prop) (R : P → P → Prop) (hrefl : ∀ a, R a a) (htrans : ∀ {a b c}, R a b → R b c → R a c)
+    (hI : ∀ g : List P, (∀ a ∈ g, I a) → I (m g))
+    (hm1 : ∀ a, I a → R a (m [a]))
+    (hassoc : ∀ gs : List (List P), (∀ g ∈ gs, g ≠ [] ∧ ∀ a ∈ g, I a) → R (m (gs.map m)) (m gs.flatten))
+    (hf : ∀ f, fo = some f → 2 ≤ max f c) (accs : List P) (hIa : ∀ a ∈ accs, I a) :
     ∃ x, reduceGlobalWith c m fo accs = pure x ∧ R x (m accs) := by
   unfold reduceGlobalWith
   cases fo with
   | none =>
-    match accs with
-    | [] => exact ⟨m [], by simp, hrefl _⟩
-    | [a] => exact ⟨a, by simp, by rw [hm1]; exact hrefl a⟩
-    | a :: b :: rest => exact ⟨m (a :: b :: rest), by simp, hrefl _⟩
+    match accs, hIa with
+    | [], _ => exact ⟨m [], by simp, hrefl _⟩
+    | [a], hIa => exact ⟨a, by simp, hm1 a (hIa a (by simp))⟩
+    | a :: b :: rest, _ => exact ⟨m (a :: b :: rest), by simp, hrefl _⟩
   | some f =>
     have h2 := hf f rfl
-    match accs with
-    | [] => exact ⟨m [], by simp [fanIn], hrefl _⟩
-    | a :: rest =>
-      obtain ⟨x, hx, hR⟩ := fanIn_spec m R hrefl htrans hm1 hassoc (max f c) h2
-        (a :: rest).length (a :: rest) (by omega) (by simp)
+    match accs, hIa with
+    | [], _ => exact ⟨m [], by simp [fanIn], hrefl _⟩
+    | a :: rest, hIa =>
+      obtain ⟨x, hx, hR⟩ := fanIn_spec m I R htrans hI hm1 hassoc (max f c) h2
+        (a :: rest).length (a :: rest) (by omega) (by simp) hIa
       exact ⟨x, by simp only [hx], hR⟩
 
 /-- current code (`.max(2)`): terminates for EVERY fan-out setting, including `Some(0)` and `Some(1)` -/
 theorem reduceGlobal_spec (m : List P → P) (fo : Option Nat)
-    (R : P → P → Prop) (hrefl : ∀ a, R a a) (htrans : ∀ {a b c}, R a b → R b c → R a c)
-    (hm1 : ∀ a, m [a] = a)
-    (hassoc : ∀ gs : List (List P), (∀ g ∈ gs, g ≠ []) → R (m (gs.map m)) (m gs.flatten))
-    (accs : List P) :
+    (I : P → Prop) (R : P → P → Prop) (hrefl : ∀ a, R a a) (htrans : ∀ {a b c}, R a b → R b c → R a c)
+    (hI : ∀ g : List P, (∀ a ∈ g, I a) → I (m g))
+    (hm1 : ∀ a, I a → R a (m [a]))
+    (hassoc : ∀ gs : List (List P), (∀ g ∈ gs, g ≠ [] ∧ ∀ a ∈ g, I a) → R (m (gs.map m)) (m gs.flatten))
+    (accs : List P) (hIa : ∀ a ∈ accs, I a) :
     ∃ x, reduceGlobal m fo accs = pure x ∧ R x (m accs) :=
-  reduceGlobalWith_spec 2 m fo R hrefl htrans hm1 hassoc (fun f _ => by omega) accs
+  reduceGlobalWith_spec 2 m fo I R hrefl htrans hI hm1 hassoc (fun f _ => by omega) accs hIa
 
 /-- pinned commit (`.max(1)`): an explicit fan-out of 0 or 1 with ≥ 2 accumulators never finishes -/
 theorem legacy_reduceGlobal_stuck (m : List P → P) (f : Nat) (hf : f ≤ 1) (accs : List P)
